@@ -569,17 +569,25 @@ def run(ctx):
     ctx.leg('in_system', pools=len(POOLS))
     if ctx.small:
         return
-    pools = ['p1', 'p2'] if ctx.tier == 'quick' else list(POOLS)
+    pools = (['p1', 'p2'] if ctx.tier == 'quick' else list(POOLS)) + ['p1#deep_copies']
     from mc.engine import par
     par.pmap(ctx, explore_pool, pools, procs=ctx.procs)
 
 
 def explore_pool(ctx, p):
+    if p.endswith('#deep_copies'):
+        # every state within two operations, with the model deep-copied there and one more operation on the copy
+        p = p.split('#')[0]
+        r = hbfs.explore(ctx, Harness(p, ctx.seed), p + '_deep_copies', max_depth=2, procs=1,
+                         case_extra={'seed': ctx.seed}, clone=True)
+        ctx.leg(p + '_deep_copies', **r)
+        return
     h = Harness(p, ctx.seed)
     r = hbfs.explore(ctx, h, p, max_depth=30, procs=1, case_extra={'seed': ctx.seed})
     ctx.leg(p, **r)
     if not r.get('fixpoint') and not r.get('aborted'):
         ctx.cap(f'{p}: fixpoint not reached')
+
 
 
 def replay(case):
